@@ -894,6 +894,10 @@ func parseMovementValue(p *Parser, allowMultiple bool, closingToken token.Type) 
 	for p.curToken.Type != closingToken {
 		if p.curToken.Type == token.PORYSWITCH {
 			poryswitchCommands, err := p.parsePoryswitchListStatement(func(p *Parser, allowMultiple bool) ([]token.Token, error) {
+				if allowMultiple {
+					// A brace case ends at its own closing brace, whatever closes the enclosing list.
+					return parseMovementValue(p, allowMultiple, token.RBRACE)
+				}
 				return parseMovementValue(p, allowMultiple, closingToken)
 			})
 			if err != nil {
